@@ -12,43 +12,67 @@ namespace Dalek.Proofs.Group
 open Dalek.Spec Dalek.Bridge Dalek.Model
 open Dalek.Model.Group (TM1D2 ROOT_OF_UNITY)
 
-/-! ## `subFromBytes`, `intoSubgroup`, `clearCofactor` -/
+/-! ## `subFromBytes`, `intoSubgroup`, `clearCofactor`
 
-theorem subFromBytes_eq_some_iff (b : List UInt8) (p : Pt) :
-    Model.Group.subFromBytes b = some p ↔ decompress b = some p ∧ isTorsionFree p = true := by
-  unfold Model.Group.subFromBytes
-  cases hd : decompress b with
-  | none => simp
-  | some q =>
-    by_cases ht : isTorsionFree q = true
-    · simp only [ht, if_true, Option.some.injEq]
-      constructor
-      · rintro rfl; exact ⟨rfl, ht⟩
-      · rintro ⟨rfl, -⟩; rfl
-    · simp only [ht, Option.some.injEq]
-      constructor
-      · intro h; cases h
-      · rintro ⟨rfl, h⟩; exact absurd h ht
+Care is needed never to let the elaborator or the kernel weak-head normalise `decompress b` or
+`isTorsionFree p` for a variable argument (the unfolding of the 250-step exponentiation / scalar
+multiplication explodes): `subFromBytes` is a `match` on `decompress b`, and matchers are unfolded eagerly in
+definitional equality checks.  We therefore unfold it at the function level, generalise the discriminant, and
+from then on only use the `Option.bind` form `subFromBytes_eq`. -/
 
+attribute [local irreducible] Dalek.Spec.decompress Dalek.Spec.isTorsionFree
+
+theorem subFromBytes_fun :
+    Model.Group.subFromBytes = fun b => (decompress b).bind Model.Group.intoSubgroup := by
+  delta Model.Group.subFromBytes
+  funext b
+  generalize decompress b = o
+  cases o with
+  | none => rfl
+  | some p =>
+    rw [Option.bind_some]
+    unfold Model.Group.intoSubgroup
+    exact Eq.refl _
+
+/-- `subFromBytes = decompress >=> intoSubgroup`. -/
 theorem subFromBytes_eq (b : List UInt8) :
     Model.Group.subFromBytes b = (decompress b).bind Model.Group.intoSubgroup := by
-  unfold Model.Group.subFromBytes Model.Group.intoSubgroup
-  cases decompress b <;> rfl
+  rw [subFromBytes_fun]
 
 theorem intoSubgroup_eq_some_iff (p q : Pt) :
     Model.Group.intoSubgroup p = some q ↔ q = p ∧ isTorsionFree p = true := by
   unfold Model.Group.intoSubgroup
   by_cases ht : isTorsionFree p = true
-  · simp only [ht, if_true, Option.some.injEq, and_true]; exact eq_comm
-  · simp only [ht, and_false]
+  · rw [if_pos ht]
+    constructor
+    · intro h; exact ⟨(Option.some.inj h).symm, ht⟩
+    · rintro ⟨rfl, -⟩; rfl
+  · rw [if_neg ht]
     constructor
     · intro h; cases h
-    · exact False.elim
+    · rintro ⟨-, h⟩; exact absurd h ht
 
 theorem intoSubgroup_isSome (p : Pt) :
     (Model.Group.intoSubgroup p).isSome = isTorsionFree p := by
   unfold Model.Group.intoSubgroup
   cases isTorsionFree p <;> rfl
+
+theorem subFromBytes_eq_some_iff (b : List UInt8) (p : Pt) :
+    Model.Group.subFromBytes b = some p ↔ decompress b = some p ∧ isTorsionFree p = true := by
+  rw [subFromBytes_eq]
+  cases hd : decompress b with
+  | none =>
+    rw [Option.bind_none]
+    constructor
+    · intro h; cases h
+    · rintro ⟨h, -⟩; cases h
+  | some q =>
+    rw [Option.bind_some, intoSubgroup_eq_some_iff]
+    constructor
+    · rintro ⟨rfl, h⟩; exact ⟨rfl, h⟩
+    · rintro ⟨h, ht⟩
+      have : q = p := Option.some.inj h
+      subst this; exact ⟨rfl, ht⟩
 
 theorem subFromBytes_isSome_iff (b : List UInt8) :
     (Model.Group.subFromBytes b).isSome = true ↔
@@ -93,22 +117,24 @@ theorem isTorsionFree_ofAffine {p : Pt} (hp : onCurve p = true) :
   have h1 := isTorsionFree_iff_E (erep_ofAffine (rep_toEd p hp))
   rw [Bool.eq_iff_iff, h1, isTorsionFree_iff hp]
 
-/-- The driver's `grp.sub_from_bytes` computation, mapped to affine, is `subFromBytes`. -/
+/-- The driver's `grp.sub_from_bytes` computation (`match EPt.decompress b with | some e => if
+e.isTorsionFree then some e else none | none => none`, written with `Option.bind`), mapped to affine, is
+`subFromBytes`. -/
 theorem subFromBytesE_toAffine (b : List UInt8) :
-    (match EPt.decompress b with
-      | some e => if EPt.isTorsionFree e then some e else none
-      | none => none).map EPt.toAffine = Model.Group.subFromBytes b := by
-  unfold Model.Group.subFromBytes EPt.decompress
+    ((EPt.decompress b).bind (fun e => if EPt.isTorsionFree e then some e else none)).map EPt.toAffine =
+      Model.Group.subFromBytes b := by
+  rw [subFromBytes_eq]
+  unfold EPt.decompress
   cases hd : decompress b with
   | none => rfl
   | some p =>
     obtain ⟨hp, cp, -⟩ := decompress_some hd
-    simp only [Option.map_some]
-    rw [isTorsionFree_ofAffine hp]
-    cases isTorsionFree p
-    · rfl
-    · simp only [if_true, Option.map_some]
-      rw [toAffine_ofAffine hp, Nat.mod_eq_of_lt cp.1, Nat.mod_eq_of_lt cp.2]
+    rw [Option.map_some, Option.bind_some, Option.bind_some, isTorsionFree_ofAffine hp]
+    unfold Model.Group.intoSubgroup
+    by_cases ht : isTorsionFree p = true
+    · rw [if_pos ht, if_pos ht, Option.map_some, toAffine_ofAffine hp, Nat.mod_eq_of_lt cp.1,
+        Nat.mod_eq_of_lt cp.2]
+    · rw [if_neg ht, if_neg ht, Option.map_none]
 
 /-! ## `sqrtRatio` -/
 
@@ -161,5 +187,86 @@ theorem cast_ratio (num div : Nat) :
   · have h' : div % L % L ≠ 0 := by rw [Nat.mod_mod]; exact h
     rw [invert_of_ne h', Option.getD_some, cast_sinv, cast_mod_L]
     ring
+
+theorem flag_iff (n d : Nat) : (n == 0 || !(d == 0)) = true ↔ (n = 0 ∨ d ≠ 0) := by
+  by_cases hn : n = 0 <;> by_cases hd : d = 0 <;> simp [hn, hd]
+
+theorem flag_false_iff (n d : Nat) : (n == 0 || !(d == 0)) = false ↔ (n ≠ 0 ∧ d = 0) := by
+  by_cases hn : n = 0 <;> by_cases hd : d = 0 <;> simp [hn, hd]
+
+/-- `sqrtRatio` in terms of `sqrt` of the quotient `a` and of `a·ROOT_OF_UNITY`. -/
+theorem sqrtRatio_eq (num div : Nat) :
+    Model.Group.sqrtRatio num div =
+      let a := Spec.smul ((Model.Group.invert (div % L)).getD 0) (num % L)
+      ((Model.Group.sqrt a).isSome && (num % L == 0 || !(div % L == 0)),
+        (if (Model.Group.sqrt a).isSome then Model.Group.sqrt a
+          else Model.Group.sqrt (Spec.smul a ROOT_OF_UNITY)).getD 0) := rfl
+
+/-- **Specification of `sqrtRatio`** (`ff::Field::sqrt_ratio`, generic implementation), in `ℤ/ℓ`. -/
+theorem sqrtRatio_spec (num div : Nat) :
+    (Model.Group.sqrtRatio num div).2 < L ∧
+    ((Model.Group.sqrtRatio num div).1 = true ↔
+      (num % L = 0 ∨ (div % L ≠ 0 ∧ IsSquare ((num : Fl) / (div : Fl))))) ∧
+    ((Model.Group.sqrtRatio num div).1 = true →
+      (((Model.Group.sqrtRatio num div).2 : Nat) : Fl) ^ 2 * (div : Fl) = (num : Fl)) ∧
+    ((Model.Group.sqrtRatio num div).1 = false → div % L ≠ 0 →
+      (((Model.Group.sqrtRatio num div).2 : Nat) : Fl) ^ 2 * (div : Fl) =
+        (ROOT_OF_UNITY : Fl) * (num : Fl)) ∧
+    ((Model.Group.sqrtRatio num div).1 = false → div % L = 0 →
+      (Model.Group.sqrtRatio num div).2 = 0) := by
+  rw [sqrtRatio_eq]
+  have hcast := cast_ratio num div
+  generalize Spec.smul ((Model.Group.invert (div % L)).getD 0) (num % L) = a at hcast
+  dsimp only
+  have hnum : num % L = 0 ↔ (num : Fl) = 0 := (castL_eq_zero_iff num).symm
+  have hdiv : div % L = 0 ↔ (div : Fl) = 0 := (castL_eq_zero_iff div).symm
+  cases hA : Model.Group.sqrt a with
+  | some r =>
+    obtain ⟨hlt, hsq, -⟩ := sqrt_some hA
+    have hr : (r : Fl) ^ 2 = (num : Fl) / (div : Fl) := by
+      rw [← hcast, sq, ← Nat.cast_mul, castL_eq_iff]; exact hsq
+    simp only [Option.isSome_some, if_true, Option.getD_some, Bool.true_and]
+    rw [flag_iff, flag_false_iff]
+    refine ⟨hlt, ?_, ?_, ?_, ?_⟩
+    · constructor
+      · rintro (h | h)
+        · exact Or.inl h
+        · exact Or.inr ⟨h, ⟨(r : Fl), by rw [← hr, sq]⟩⟩
+      · rintro (h | ⟨h, -⟩)
+        · exact Or.inl h
+        · exact Or.inr h
+    · rintro (h | h)
+      · rw [hnum] at h
+        rw [hr, h, zero_div, zero_mul]
+      · have h' : (div : Fl) ≠ 0 := fun e => h (hdiv.2 e)
+        rw [hr, div_mul_cancel₀ _ h']
+    · rintro ⟨-, h⟩ h'; exact absurd h h'
+    · rintro ⟨-, h⟩ -
+      rw [hdiv] at h
+      rw [h, div_zero] at hr
+      have hr0 : ((r : Nat) : Fl) = ((0 : Nat) : Fl) := by
+        rw [Nat.cast_zero]; exact (pow_eq_zero_iff two_ne_zero).1 hr
+      exact (castL_inj_of_lt hlt L_pos).1 hr0
+  | none =>
+    have hns : ¬ IsSquare ((a : Nat) : Fl) := (sqrt_none_iff a).1 hA
+    rw [hcast] at hns
+    have hq0 : (num : Fl) / (div : Fl) ≠ 0 := fun h => hns (h ▸ IsSquare.zero)
+    have hn0 : (num : Fl) ≠ 0 := fun h => hq0 (by rw [h, zero_div])
+    have hd0 : (div : Fl) ≠ 0 := fun h => hq0 (by rw [h, div_zero])
+    have hsB : IsSquare (((Spec.smul a ROOT_OF_UNITY : Nat) : Fl)) := by
+      rw [cast_smul, hcast]; exact isSquare_mul_root hns
+    simp only [Option.isSome_none, Bool.false_and, Bool.false_eq_true, if_false, false_iff, not_or,
+      not_and, false_imp_iff, true_and, forall_const]
+    cases hB : Model.Group.sqrt (Spec.smul a ROOT_OF_UNITY) with
+    | none => exact absurd hsB ((sqrt_none_iff _).1 hB)
+    | some r =>
+      obtain ⟨hlt, hsq, -⟩ := sqrt_some hB
+      have hr : (r : Fl) ^ 2 = (num : Fl) / (div : Fl) * (ROOT_OF_UNITY : Fl) := by
+        rw [← hcast, ← cast_smul, sq, ← Nat.cast_mul, castL_eq_iff]; exact hsq
+      rw [Option.getD_some]
+      refine ⟨hlt, ⟨fun h => hn0 (hnum.1 h), fun _ => hns⟩, ?_, ?_⟩
+      · intro _
+        rw [hr]; field_simp
+      · intro h; exact absurd (hdiv.1 h) hd0
 
 end Dalek.Proofs.Group
